@@ -222,12 +222,12 @@ impl<'a> Run<'a> {
         }
     }
 
-    fn lifecycle(&mut self, biscuit: &Biscuit, spec: &VerifierSpec, limits: Limits, label: &str, token: usize, verifier: usize) {
+    fn lifecycle(&mut self, biscuit: Option<&Biscuit>, spec: &VerifierSpec, limits: Limits, label: &str, token: usize, verifier: usize) {
         let steps = [Step::Run, Step::Authorize, Step::Query(0), Step::QueryAll(1), Step::Authorize];
         let hk = self.scn.hash_key;
         for crash in 0..=steps.len() {
             libeval::install(hk);
-            let mut a = match libeval::build_authorizer(Some(biscuit), &spec.authorizer, limits) {
+            let mut a = match libeval::build_authorizer(biscuit, &spec.authorizer, limits) {
                 Ok(a) => a,
                 Err(_) => {
                     self.stats.bump("c13.skipped_build_failed");
@@ -336,13 +336,15 @@ impl<'a> Run<'a> {
     }
 
     pub fn check_c13(&mut self, biscuit: &Biscuit, token: usize, verifier: usize, spec: &VerifierSpec) {
-        self.lifecycle(biscuit, spec, spec.limits, "generous limits", token, verifier);
+        self.lifecycle(Some(biscuit), spec, spec.limits, "generous limits", token, verifier);
+        // the same authorizer without any token (build_unauthenticated)
+        self.lifecycle(None, spec, spec.limits, "no token", token, verifier);
         let tight = Limits {
             max_facts: spec.limits.max_facts,
             max_iterations: 1,
             max_time_ns: spec.limits.max_time_ns,
         };
-        self.lifecycle(biscuit, spec, tight, "max_iterations=1", token, verifier);
+        self.lifecycle(Some(biscuit), spec, tight, "max_iterations=1", token, verifier);
         self.stats.trace.push("c13".to_string());
 
         // authorizer builder snapshot
